@@ -57,6 +57,16 @@ def cases(tier, seed):
             nodes = [["i0", "input", False]] + [[n, t, True] for n, t in zip(ring, tys)]
             edges = [[ring[k], ring[(k + 1) % 3]] for k in range(3)] + [["i0", n] for n, t in zip(ring, tys) if t != "not"]
             yield {"c": {"name": "ring", "nodes": nodes, "edges": edges, "bbs": {}}}
+    # rings of ONE-input gates of every type (a one-input nand / nor / xnor inverts, a one-input and / or / xor forwards),
+    # observed through an output gate that also reads a primary input
+    one_in = ["not", "buf", "nand", "nor", "xnor", "and", "or", "xor"]
+    for k_, tys in enumerate(itertools.product(one_in, repeat=3)):
+        if k_ % (5 if tier == "quick" else 1):
+            continue
+        ring = ["r0", "r1", "r2"]
+        nodes = [["i0", "input", False]] + [[n, t, False] for n, t in zip(ring, tys)] + [["o", "and", True], ["p", "xor", True]]
+        edges = [[ring[j], ring[(j + 1) % 3]] for j in range(3)] + [["r1", "o"], ["i0", "o"], ["r2", "p"], ["i0", "p"]]
+        yield {"c": {"name": "ring1", "nodes": nodes, "edges": edges, "bbs": {}}}
     for i in range(120 if tier == "quick" else 2500):
         cd = gen.random_circuit(rng, n_in=rng.randint(1, 3), n_gates=rng.randint(2, 7), max_fanin=3, p_const=0.2,
                                 cyclic=rng.randint(1, 3), p_out=0.4, allow_input_output=rng.random() < 0.2,
